@@ -229,3 +229,298 @@ Qed.
 (* an error that is no status error: code unknown, the text as message *)
 Lemma err_plain_grpc_proof t : proto_of_grpc (GrpcPlain t) = PErr 2 (Some t) [].
 Proof. reflexivity. Qed.
+
+(* ====================================================================== *)
+(* 2. Header lists <-> metadata                                            *)
+(* ====================================================================== *)
+Definition get_or_nil (o : option (list bytes)) : list bytes := match o with Some l => l | None => [] end.
+Definition is_some {A} (o : option A) : bool := match o with Some _ => true | None => false end.
+
+Lemma bytes_eqb_sym a b : bytes_eqb a b = bytes_eqb b a.
+Proof. destruct (bytes_eqb_spec a b), (bytes_eqb_spec b a); congruence. Qed.
+
+(* m[k] = append(m[k], vs...) read back *)
+Lemma md_get_append k vs m k' :
+  md_get (md_append k vs m) k' =
+  if bytes_eqb k' k then Some (get_or_nil (md_get m k) ++ vs) else md_get m k'.
+Proof.
+  induction m as [|[k0 vs0] m IH].
+  - cbn. destruct (bytes_eqb k' k); reflexivity.
+  - cbn [md_append md_get]. destruct (bytes_eqb_spec k k0) as [->|Hne].
+    + cbn [md_get get_or_nil]. destruct (bytes_eqb k' k0); reflexivity.
+    + cbn [md_get]. rewrite IH. destruct (bytes_eqb_spec k' k0) as [->|Hne'].
+      * destruct (bytes_eqb_spec k0 k); [congruence|reflexivity].
+      * reflexivity.
+Qed.
+
+Lemma md_get_in m k : md_get m k <> None <-> In k (map fst m).
+Proof.
+  induction m as [|[k0 vs0] m IH]; cbn [md_get map fst In]; [tauto|].
+  destruct (bytes_eqb_spec k k0) as [->|Hne].
+  - split; [auto|discriminate].
+  - rewrite IH. split; [auto|]. intros [E|H]; [congruence|exact H].
+Qed.
+
+Lemma NoDup_snoc {A} (l : list A) x : NoDup l -> ~ In x l -> NoDup (l ++ [x]).
+Proof.
+  induction l as [|y l IH]; intros ND NI; cbn [app].
+  - constructor; [intros []|constructor].
+  - inversion ND as [|? ? Hy Hl]; subst. constructor.
+    + intros HI. apply in_app_or in HI. destruct HI as [HI|[->|[]]]; [contradiction|].
+      apply NI. left. reflexivity.
+    + apply IH; [exact Hl|]. intros HI. apply NI. right. exact HI.
+Qed.
+
+Lemma md_append_keys k vs m :
+  map fst (md_append k vs m) = if mem_bytes k (map fst m) then map fst m else map fst m ++ [k].
+Proof.
+  induction m as [|[k0 vs0] m IH]; [reflexivity|].
+  cbn [md_append map fst mem_bytes existsb]. destruct (bytes_eqb k k0); cbn [orb map fst]; [reflexivity|].
+  rewrite IH. fold (mem_bytes k (map fst m)). destruct (mem_bytes k (map fst m)); reflexivity.
+Qed.
+
+Lemma md_append_nodup k vs m : NoDup (map fst m) -> NoDup (map fst (md_append k vs m)).
+Proof.
+  intros ND. rewrite md_append_keys. destruct (mem_bytes k (map fst m)) eqn:E; [exact ND|].
+  apply NoDup_snoc; [exact ND|]. intros HI. apply mem_bytes_in in HI. congruence.
+Qed.
+
+(* a metadata map filled by appending, one element of l at a time *)
+Section Build.
+  Context {A : Type} (key : A -> bytes) (vals : A -> list bytes).
+  Definition build_step (m : md) (a : A) : md := md_append (key a) (vals a) m.
+  Definition gathered (k : bytes) (l : list A) : list bytes :=
+    flat_map (fun a => if bytes_eqb (key a) k then vals a else []) l.
+
+  Lemma md_get_build l : forall m0 k,
+    md_get (fold_left build_step l m0) k =
+    if existsb (fun a => bytes_eqb (key a) k) l || is_some (md_get m0 k)
+    then Some (get_or_nil (md_get m0 k) ++ gathered k l) else None.
+  Proof.
+    induction l as [|a l IH]; intros m0 k.
+    - cbn. destruct (md_get m0 k); cbn; [rewrite app_nil_r|]; reflexivity.
+    - cbn [fold_left existsb gathered flat_map]. rewrite IH. unfold build_step.
+      rewrite md_get_append. rewrite (bytes_eqb_sym k (key a)).
+      destruct (bytes_eqb_spec (key a) k) as [E|Hne].
+      + rewrite E. cbn [is_some get_or_nil orb]. rewrite orb_true_r.
+        fold (gathered k l). rewrite app_assoc. reflexivity.
+      + cbn [orb app]. reflexivity.
+  Qed.
+
+  Lemma build_nodup l : forall m0, NoDup (map fst m0) -> NoDup (map fst (fold_left build_step l m0)).
+  Proof.
+    induction l as [|a l IH]; intros m0 ND; [exact ND|].
+    cbn [fold_left]. apply IH. apply md_append_nodup. exact ND.
+  Qed.
+
+  Lemma md_get_build_nil l k :
+    md_get (fold_left build_step l []) k =
+    if existsb (fun a => bytes_eqb (key a) k) l then Some (gathered k l) else None.
+  Proof. rewrite md_get_build. cbn. rewrite orb_false_r. reflexivity. Qed.
+End Build.
+
+Lemma gathered_app {A} (key : A -> bytes) vals k (l1 l2 : list A) :
+  gathered key vals k (l1 ++ l2) = gathered key vals k l1 ++ gathered key vals k l2.
+Proof. apply flat_map_app. Qed.
+
+Lemma in_values_for k hs v :
+  In v (values_for k hs) -> exists h, In h hs /\ lower (fst h) = k /\ In v (snd h).
+Proof.
+  unfold values_for. rewrite in_flat_map. intros (h & Hh & Hv). exists h.
+  unfold names_match in Hv. destruct (bytes_eqb_spec (lower (fst h)) k); [auto|destruct Hv].
+Qed.
+
+Lemma occurs_iff k hs : occurs k hs = true <-> exists h, In h hs /\ lower (fst h) = k.
+Proof.
+  unfold occurs, names_match. rewrite existsb_exists. split; intros (h & Hh & E); exists h; split; auto.
+  - apply bytes_eqb_eq; exact E.
+  - apply bytes_eqb_eq; exact E.
+Qed.
+
+Section MetadataProofs.
+  Variable b64enc : bytes -> bytes.
+  Variable b64dec : bytes -> option bytes.
+  Let dor := decode_or_raw b64dec.
+  Let to_md := md_of_proto b64dec.
+  Let of_md := proto_of_md b64enc.
+
+  (* what a `-bin` value reads after going to metadata and back: the base64 text of its
+     decoded form, i.e. encoded once *)
+  Definition once (k : bytes) (vs : list bytes) : list bytes :=
+    if is_bin k then map (fun v => b64enc (decode_or_raw b64dec v)) vs else vs.
+
+  Lemma md_step_is_build :
+    md_step b64dec = build_step (fun h : header => lower (fst h))
+                                (fun h => if is_bin (lower (fst h)) then map dor (snd h) else snd h).
+  Proof. reflexivity. Qed.
+
+  Lemma gathered_md k hs :
+    gathered (fun h : header => lower (fst h))
+             (fun h => if is_bin (lower (fst h)) then map dor (snd h) else snd h) k hs =
+    if is_bin k then map dor (values_for k hs) else values_for k hs.
+  Proof.
+    unfold gathered, values_for, names_match. induction hs as [|h hs IH]; cbn [flat_map].
+    - destruct (is_bin k); reflexivity.
+    - rewrite IH. destruct (bytes_eqb_spec (lower (fst h)) k) as [->|Hne].
+      + destruct (is_bin k); [rewrite map_app|]; reflexivity.
+      + destruct (is_bin k); reflexivity.
+  Qed.
+
+  (* header list -> metadata: every key up to letter case, every value in order *)
+  Lemma md_of_proto_get hs k :
+    md_get (to_md hs) k =
+    if occurs k hs then Some (if is_bin k then map dor (values_for k hs) else values_for k hs) else None.
+  Proof.
+    unfold to_md, md_of_proto. rewrite md_step_is_build, md_get_build_nil, gathered_md. reflexivity.
+  Qed.
+
+  Lemma md_of_proto_nodup hs : NoDup (map fst (to_md hs)).
+  Proof. unfold to_md, md_of_proto. rewrite md_step_is_build. apply build_nodup. constructor. Qed.
+
+  Lemma proto_of_md_keys m : map fst (of_md m) = map fst m.
+  Proof. unfold of_md, proto_of_md. rewrite map_map. reflexivity. Qed.
+
+  Lemma proto_of_md_get m k :
+    md_get (of_md m) k =
+    match md_get m k with Some vs => Some (if is_bin k then map b64enc vs else vs) | None => None end.
+  Proof.
+    unfold of_md, proto_of_md. induction m as [|[k0 vs0] m IH]; [reflexivity|].
+    cbn [map md_get fst snd]. destruct (bytes_eqb_spec k k0) as [->|Hne]; [reflexivity|exact IH].
+  Qed.
+
+  Lemma md_roundtrip_proof hs :
+    NoDup (map fst (of_md (to_md hs))) /\
+    (forall k, In k (map fst (of_md (to_md hs))) <-> exists h, In h hs /\ lower (fst h) = k) /\
+    (forall k, md_get (to_md hs) k =
+               if occurs k hs then Some (if is_bin k then map dor (values_for k hs) else values_for k hs) else None) /\
+    (forall k, md_get (of_md (to_md hs)) k = if occurs k hs then Some (once k (values_for k hs)) else None) /\
+    (b64_contract b64enc b64dec -> canonical_bin b64enc hs ->
+     forall k, md_get (of_md (to_md hs)) k = if occurs k hs then Some (values_for k hs) else None).
+  Proof.
+    assert (G : forall k, md_get (of_md (to_md hs)) k = if occurs k hs then Some (once k (values_for k hs)) else None).
+    { intros k. rewrite proto_of_md_get, md_of_proto_get. unfold once.
+      destruct (occurs k hs); [|reflexivity]. destruct (is_bin k); [rewrite map_map|]; reflexivity. }
+    split; [rewrite proto_of_md_keys; apply md_of_proto_nodup|].
+    split; [|split; [apply md_of_proto_get|split; [exact G|]]].
+    - intros k. rewrite <- md_get_in, G, <- occurs_iff. destruct (occurs k hs); split; congruence.
+    - intros HB HC k. rewrite G. destruct (occurs k hs); [|reflexivity]. f_equal.
+      unfold once. destruct (is_bin k) eqn:Bk; [|reflexivity].
+      rewrite <- (map_id (values_for k hs)) at 2. apply map_ext_in. intros v Hv.
+      destruct (in_values_for _ _ _ Hv) as (h & Hh & <- & Hvh).
+      destruct (HC h v Hh Bk Hvh) as (raw & ->). unfold decode_or_raw. rewrite HB. reflexivity.
+  Qed.
+
+  (* metadata -> header list -> metadata *)
+  Lemma values_for_unique (m : md) k :
+    NoDup (map fst m) -> Forall (fun kv => lower (fst kv) = fst kv) m ->
+    values_for k m = get_or_nil (md_get m k) /\ occurs k m = is_some (md_get m k).
+  Proof.
+    unfold values_for, occurs, names_match.
+    induction m as [|[k0 vs0] m IH]; intros ND HL; [split; reflexivity|].
+    inversion ND as [|? ? Hk Hm]; subst. inversion HL as [|? ? E0 Hl]; subst. cbn [fst] in E0.
+    destruct (IH Hm Hl) as (IV & IO). cbn [flat_map existsb md_get fst snd]. rewrite E0.
+    rewrite (bytes_eqb_sym k k0). destruct (bytes_eqb_spec k0 k) as [->|Hne].
+    - assert (N : md_get m k = None).
+      { destruct (md_get m k) eqn:E; [|reflexivity]. exfalso. apply Hk. apply md_get_in. congruence. }
+      rewrite IV, N. cbn. rewrite app_nil_r. split; reflexivity.
+    - cbn [orb app]. split; assumption.
+  Qed.
+
+  Lemma md_roundtrip_back_proof (m : md) :
+    b64_contract b64enc b64dec ->
+    NoDup (map fst m) -> Forall (fun kv => lower (fst kv) = fst kv) m ->
+    forall k, md_get (to_md (of_md m)) k = md_get m k.
+  Proof.
+    intros HB ND HL k. rewrite md_of_proto_get.
+    assert (ND' : NoDup (map fst (of_md m))) by (rewrite proto_of_md_keys; exact ND).
+    assert (HL' : Forall (fun kv => lower (fst kv) = fst kv) (of_md m)).
+    { unfold of_md, proto_of_md. rewrite Forall_map. exact HL. }
+    destruct (values_for_unique (of_md m) k ND' HL') as (-> & ->).
+    rewrite proto_of_md_get. destruct (md_get m k) as [vs|]; [|reflexivity]. cbn [is_some get_or_nil].
+    f_equal. destruct (is_bin k); [|reflexivity]. rewrite map_map.
+    rewrite <- (map_id vs) at 2. apply map_ext. intros v. unfold dor, decode_or_raw. rewrite HB. reflexivity.
+  Qed.
+
+  (* ---- key/value pairs appended one at a time (grpc-go's outgoing metadata, http.Header.Add) ---- *)
+  Definition pairs_md (norm : bytes -> bytes) (kvs : list (bytes * bytes)) : md :=
+    fold_left (fun m kv => md_append (norm (fst kv)) [snd kv] m) kvs [].
+
+  Lemma pairs_md_get norm kvs k :
+    md_get (pairs_md norm kvs) k =
+    some_nonempty (flat_map (fun kv => if bytes_eqb (norm (fst kv)) k then [snd kv] else []) kvs).
+  Proof.
+    unfold pairs_md.
+    change (fun (m : md) (kv : bytes * bytes) => md_append (norm (fst kv)) [snd kv] m)
+      with (build_step (fun kv : bytes * bytes => norm (fst kv)) (fun kv => [snd kv])).
+    rewrite md_get_build_nil. unfold gathered.
+    induction kvs as [|kv kvs IH]; [reflexivity|].
+    cbn [existsb flat_map]. destruct (bytes_eqb (norm (fst kv)) k); cbn [orb app]; [reflexivity|exact IH].
+  Qed.
+
+  Lemma pairs_md_nodup norm kvs : NoDup (map fst (pairs_md norm kvs)).
+  Proof.
+    unfold pairs_md.
+    change (fun (m : md) (kv : bytes * bytes) => md_append (norm (fst kv)) [snd kv] m)
+      with (build_step (fun kv : bytes * bytes => norm (fst kv)) (fun kv => [snd kv])).
+    apply build_nodup. constructor.
+  Qed.
+
+  Lemma pairs_of_headers norm (nm : header -> bytes) (f : header -> bytes -> bytes) k hs :
+    flat_map (fun kv : bytes * bytes => if bytes_eqb (norm (fst kv)) k then [snd kv] else [])
+             (flat_map (fun h => map (fun v => (nm h, f h v)) (snd h)) hs) =
+    flat_map (fun h => if bytes_eqb (norm (nm h)) k then map (f h) (snd h) else []) hs.
+  Proof.
+    induction hs as [|h hs IH]; [reflexivity|].
+    cbn [flat_map]. rewrite flat_map_app, IH. f_equal.
+    induction (snd h) as [|v vs IV]; cbn [map flat_map fst snd].
+    - destruct (bytes_eqb (norm (nm h)) k); reflexivity.
+    - rewrite IV. destruct (bytes_eqb (norm (nm h)) k); reflexivity.
+  Qed.
+
+  (* AppendToOutgoingContext + grpc-go: what goes on the wire, what the peer reports *)
+  Lemma outgoing_md_get hs k :
+    md_get (grpc_outgoing_md (outgoing_pairs b64dec hs)) k =
+    some_nonempty (if is_bin k then map dor (values_for k hs) else values_for k hs).
+  Proof.
+    change (grpc_outgoing_md (outgoing_pairs b64dec hs)) with (pairs_md lower (outgoing_pairs b64dec hs)).
+    rewrite pairs_md_get. unfold outgoing_pairs.
+    rewrite (pairs_of_headers lower (fun h => fst h) (fun h v => if is_bin (lower (fst h)) then dor v else v)).
+    f_equal. unfold values_for, names_match. induction hs as [|h hs IH]; cbn [flat_map].
+    - destruct (is_bin k); reflexivity.
+    - rewrite IH. destruct (bytes_eqb_spec (lower (fst h)) k) as [->|Hne].
+      + destruct (is_bin k); [rewrite map_app|rewrite map_id]; reflexivity.
+      + destruct (is_bin k); reflexivity.
+  Qed.
+
+  Lemma some_nonempty_map {f : bytes -> bytes} l :
+    match some_nonempty l with Some vs => Some (map f vs) | None => None end = some_nonempty (map f l).
+  Proof. destruct l; reflexivity. Qed.
+
+  Lemma outgoing_once_proof hs :
+    NoDup (map fst (outgoing_reported b64enc b64dec hs)) /\
+    (* the metadata handed to grpc-go is what ConvertProtoHeaderToMetadata builds (names without a value carry nothing) *)
+    (forall k, md_get (grpc_outgoing_md (outgoing_pairs b64dec hs)) k = some_nonempty (get_or_nil (md_get (to_md hs) k))) /\
+    (forall k, md_get (outgoing_reported b64enc b64dec hs) k = some_nonempty (once k (values_for k hs))) /\
+    (b64_contract b64enc b64dec -> canonical_bin b64enc hs ->
+     forall k, md_get (outgoing_reported b64enc b64dec hs) k = some_nonempty (values_for k hs)).
+  Proof.
+    assert (G : forall k, md_get (outgoing_reported b64enc b64dec hs) k = some_nonempty (once k (values_for k hs))).
+    { intros k. unfold outgoing_reported. fold of_md. rewrite proto_of_md_get, outgoing_md_get. unfold once.
+      destruct (is_bin k).
+      - rewrite some_nonempty_map, map_map. reflexivity.
+      - destruct (some_nonempty (values_for k hs)); reflexivity. }
+    split; [|split; [|split; [exact G|]]].
+    - unfold outgoing_reported. fold of_md. rewrite proto_of_md_keys. apply pairs_md_nodup.
+    - intros k. rewrite outgoing_md_get, md_of_proto_get. destruct (occurs k hs) eqn:O; [reflexivity|].
+      assert (E : values_for k hs = []).
+      { destruct (values_for k hs) as [|v l] eqn:EV; [reflexivity|]. exfalso.
+        destruct (in_values_for k hs v) as (h & Hh & Hk & _); [rewrite EV; left; reflexivity|].
+        assert (occurs k hs = true) by (apply occurs_iff; exists h; auto). congruence. }
+      rewrite E. destruct (is_bin k); reflexivity.
+    - intros HB HC k. rewrite G. f_equal.
+      unfold once. destruct (is_bin k) eqn:Bk; [|reflexivity].
+      rewrite <- (map_id (values_for k hs)) at 2. apply map_ext_in. intros v Hv.
+      destruct (in_values_for _ _ _ Hv) as (h & Hh & <- & Hvh).
+      destruct (HC h v Hh Bk Hvh) as (raw & ->). unfold decode_or_raw. rewrite HB. reflexivity.
+  Qed.
+End MetadataProofs.
